@@ -1,6 +1,7 @@
 import StunVerif.Props.C08
 import StunVerif.Props.Utf8
 import StunVerif.Props.SrcFnDecode
+import StunVerif.Props.SrcFnAttr
 #print axioms StunVerif.C08.decode_iff
 #print axioms StunVerif.C08.decode_fields
 #print axioms StunVerif.C08.wrong_type
@@ -28,3 +29,6 @@ import StunVerif.Props.SrcFnDecode
 #print axioms StunVerif.SrcFnDecode.cookie_iff
 #print axioms StunVerif.SrcFnDecode.len_field
 #print axioms StunVerif.SrcFnDecode.src_headerFromBytes
+#print axioms StunVerif.SrcFnAttr.src_checkLen
+#print axioms StunVerif.SrcFnAttr.src_checkTypeAndLen
+#print axioms StunVerif.SrcFnAttr.checkLen_excluded_end
